@@ -127,7 +127,7 @@ pub fn make_scenario(rng : &mut Rng, prop : &str, thorough : bool) -> Scenario
 
     let targets_now : Vec<String> = run.world.rules.iter().flat_map(|r| r.targets()).collect();
     let final_goal = if targets_now.len() > 0 && rng.chance(1, 4) { Some(targets_now[rng.below(targets_now.len())].clone()) } else { None };
-    let final_op = if prop == "C05" && rng.chance(1, 4) { Final::Clean(final_goal) } else { Final::Build(final_goal) };
+    let final_op = if (prop == "C05" || prop == "C11") && rng.chance(1, 4) { Final::Clean(final_goal) } else { Final::Build(final_goal) };
     Scenario { run : run, label : label.to_string(), final_op : final_op, failures_injected : failures }
 }
 
